@@ -39,7 +39,6 @@ use dmntk_feel::values::{Value, Values, VALUE_FALSE, VALUE_TRUE};
 use dmntk_feel::{value_null, FeelDate, FeelDateTime, FeelDaysAndTimeDuration, FeelNumber, FeelTime, FeelYearsAndMonthsDuration, Name, Scope, ToFeelString};
 use regex::Regex;
 use std::borrow::Borrow;
-use std::cmp::Ordering;
 use std::convert::TryFrom;
 
 /// Builds null value with invalid argument type message.
@@ -888,22 +887,16 @@ pub fn sort(list: &Value, ordering_function: &Value) -> Value {
   if let Value::List(items) = list.clone() {
     if let Value::FunctionDefinition(parameters, body, _) = ordering_function {
       if parameters.len() == 2 {
-        let mut elements = items.as_vec().clone();
-        elements.sort_by(|x, y| {
+        // the ordering function is user-defined and may be no order at all: the sorting functions of the standard
+        // library may panic then, so the list is sorted by a merge sort that only asks if one item precedes another
+        let precedes = |x: &Value, y: &Value| {
           let mut ctx = FeelContext::default();
           ctx.set_entry(&parameters[0].0, x.clone());
           ctx.set_entry(&parameters[1].0, y.clone());
           let scope: Scope = ctx.into();
-          if let Value::Boolean(result) = body.evaluate(&scope) {
-            if result {
-              Ordering::Less
-            } else {
-              Ordering::Equal
-            }
-          } else {
-            Ordering::Equal
-          }
-        });
+          matches!(body.evaluate(&scope), Value::Boolean(true))
+        };
+        let elements = stable_merge_sort(items.as_vec().clone(), &precedes);
         Value::List(Values::new(elements))
       } else {
         value_null!("sort: ordering function should take exactly two arguments")
@@ -914,6 +907,43 @@ pub fn sort(list: &Value, ordering_function: &Value) -> Value {
   } else {
     value_null!("sort: expected a list of values as a first argument")
   }
+}
+
+/// Sorts the items with a stable bottom-up merge sort: an item of the right run is taken before
+/// an item of the left run only when it precedes it. Terminates and never panics, whatever `precedes` answers.
+fn stable_merge_sort(mut items: Vec<Value>, precedes: &dyn Fn(&Value, &Value) -> bool) -> Vec<Value> {
+  let len = items.len();
+  let mut width = 1;
+  while width < len {
+    let mut merged = Vec::with_capacity(len);
+    let mut start = 0;
+    while start < len {
+      let middle = std::cmp::min(start + width, len);
+      let end = std::cmp::min(middle + width, len);
+      let (mut left, mut right) = (start, middle);
+      while left < middle && right < end {
+        if precedes(&items[right], &items[left]) {
+          merged.push(items[right].clone());
+          right += 1;
+        } else {
+          merged.push(items[left].clone());
+          left += 1;
+        }
+      }
+      while left < middle {
+        merged.push(items[left].clone());
+        left += 1;
+      }
+      while right < end {
+        merged.push(items[right].clone());
+        right += 1;
+      }
+      start = end;
+    }
+    items = merged;
+    width *= 2;
+  }
+  items
 }
 
 ///
